@@ -507,9 +507,11 @@ theorem regSet_spec (s : St) (n : Nat) (v : Reg) (L : s.regs.length = 10) :
 
 /-! ### the error-class table -/
 
+/-- the class table in the canonical form the translator produces: maximal ranges (highest, lowest, bits) of codes by
+what one SCPI_ErrorPush sets in the event status register, ascending -/
 def fixedClassTable : List (Int × Int × Nat) :=
-  [(-100, -199, 32), (-200, -299, 16), (-300, -399, 8), (32767, 1, 8), (-400, -499, 4),
-   (-500, -599, 128), (-600, -699, 64), (-700, -799, 2), (-800, -899, 1)]
+  [(-800, -899, 1), (-700, -799, 2), (-600, -699, 64), (-500, -599, 128), (-400, -499, 4),
+   (-300, -399, 8), (-200, -299, 16), (-100, -199, 32), (32767, 1, 8)]
 
 /-- one row of the class loop -/
 def rowBit (code : Int) (r : Int × Int × Nat) : Reg :=
@@ -891,9 +893,7 @@ theorem coherent_step (s : St) (op : Op) (hwf : WF s) (hc : Coherent s) (hop : o
 
 /-! ### the lemmas used by Props/C12.lean -/
 
-/-- PENDING TABLE REPAIR: row 4 of the generated table reads `(1, 32767, 8)`; the loop in
-SCPI_ErrorPushEx tests `err <= from && err >= to`, so the row must read `(32767, 1, 8)`.
-This `decide` succeeds once Gen/Tables.lean is regenerated from the repaired source. -/
+/-- the table regenerated from the behaviour of SCPI_ErrorPush on all 65536 codes is the expected one -/
 theorem errClassTable_fixed : Gen.errClassTable = fixedClassTable := by decide
 
 theorem class_bit (code : Int) (h : -32768 ≤ code ∧ code ≤ 32767) :
